@@ -30,11 +30,14 @@ def _c08(prop, tier, replay_path):
             if mode == "member":
                 return nhfamily.check_c08_joiners(prop, tier, replay_path)
             return nhfamily.check_c08_compaction(prop, tier, replay_path)
+        if kind == "TestVerifSpsim":
+            return c11b.check_jobs(prop, tier, replay_path)
         return rsmchecks.check_c08(prop, tier, replay_path)
     a = rsmchecks.check_c08(prop, tier, None)
     b = nhfamily.check_c08_compaction(prop, tier, None)
     c = nhfamily.check_c08_joiners(prop, tier, None)
-    return 1 if 1 in (a, b, c) else max(a, b, c)
+    d = c11b.check_jobs(prop, tier, None)
+    return 1 if 1 in (a, b, c, d) else max(a, b, c, d)
 
 
 CHECKS["C08"] = _c08
@@ -74,10 +77,13 @@ def _c11(prop, tier, replay_path):
             kind = json.load(fh).get("kind")
         if kind == "TestVerifLcsim":
             return c11b.check(prop, tier, replay_path)
+        if kind == "TestVerifSpsim":
+            return c11b.check_jobs(prop, tier, replay_path)
         return nhfamily.check_c11(prop, tier, replay_path)
     a = nhfamily.check_c11(prop, tier, None)
     b = c11b.check(prop, tier, None)
-    return 1 if 1 in (a, b) else max(a, b)
+    c = c11b.check_jobs(prop, tier, None)
+    return 1 if 1 in (a, b, c) else max(a, b, c)
 
 
 CHECKS["C11"] = _c11
